@@ -76,6 +76,8 @@ type RunCfg struct {
 	unwindAssert map[string]bool            // loopKey: prove that K iterations suffice (complete)
 	unrollAll    int                        // != 0: every loop without an entry in unroll is unrolled this often (-1: zero times)
 	noVariant    map[string]bool            // loops whose termination is not claimed (probabilistic)
+	boundedNote  string                     // the lemma is a bounded stand-in (description of the bound)
+	maxLen       map[string]int64           // lemma parameter -> maximal length (a precondition of the lemma, as bounds)
 	fnScope      string                     // non-empty: record the write set of the verified function under this key
 	paramWrites  map[string]string          // "<param index>|<suffix>" -> kind name (frame computation)
 	strict       bool                       // strict (len, not cap) bounds on input-derived slices
@@ -85,7 +87,7 @@ type RunCfg struct {
 
 func newRunCfg() *RunCfg {
 	return &RunCfg{disabled: map[string]bool{}, modKinds: map[string]map[string]bool{}, fullHavoc: map[string]bool{},
-		unroll: map[string]int{}, unwindAssert: map[string]bool{}, noVariant: map[string]bool{}, paramWrites: map[string]string{}, strict: true, maxDepth: 14, useSummary: map[string]bool{}}
+		unroll: map[string]int{}, unwindAssert: map[string]bool{}, noVariant: map[string]bool{}, maxLen: map[string]int64{}, paramWrites: map[string]string{}, strict: true, maxDepth: 14, useSummary: map[string]bool{}}
 }
 
 type Exec struct {
@@ -121,6 +123,7 @@ type Exec struct {
 	summariesUsed map[string]bool
 	bindAny       bool
 	specDepth     int
+	argPrefix     string
 	scopeParams   []scopeParam
 	hmacNewHook   func(reach, ref, alg *Term, key SliceV)
 	hashResetHook func(reach, ref *Term)
@@ -1166,7 +1169,16 @@ func (ex *Exec) execInstr(f *Frame, b *ssa.BasicBlock, ins ssa.Instruction) {
 		ex.unsupported("range over map/string in " + fnName(f.fn))
 	case *ssa.Next:
 		ex.unsupported("next (map iteration) in " + fnName(f.fn))
-		f.vals[x] = ex.freshValue(x.Type(), "next", true)
+		tt := x.Type().(*types.Tuple)
+		tv := TupleV{Fresh("next.ok", SBool, nil, nil)}
+		for i := 1; i < tt.Len(); i++ {
+			if t := tt.At(i).Type(); t != nil && t.String() != "invalid type" {
+				tv = append(tv, ex.freshValue(t, "next", true))
+			} else {
+				tv = append(tv, nil)
+			}
+		}
+		f.vals[x] = tv
 	default:
 		ex.unsupported(fmt.Sprintf("instruction %T in %s", ins, fnName(f.fn)))
 		if v, ok := ins.(ssa.Value); ok {
